@@ -12,6 +12,7 @@ import (
 	"encoding/json"
 	"fmt"
 	"os"
+	"regexp"
 	"runtime/debug"
 	"sort"
 	"strings"
@@ -95,6 +96,7 @@ type Result struct {
 	NViolations int64              `json:"n_violations"`
 	Sections    []Section          `json:"sections,omitempty"`
 	Unclaimed   map[string]int64   `json:"unclaimed,omitempty"`
+	KnownHits   map[int]int64      `json:"known_hits,omitempty"` // index into known findings -> count
 	Cut         bool               `json:"cut"` // deadline hit
 	EngineError string             `json:"engine_error,omitempty"`
 	StateSet    map[string]struct{} `json:"-"`
@@ -123,6 +125,7 @@ type Run struct {
 	maxViol    int
 	sampleEvery int64
 	sec        *Section
+	knownRE    []*regexp.Regexp
 }
 
 func (r *Run) Quick() bool    { return r.Tier != "thorough" }
@@ -266,6 +269,17 @@ func (r *Run) Sample(v any) {
 func (r *Run) Violation(key string, payload any, detail string) {
 	r.mu.Lock()
 	defer r.mu.Unlock()
+	// Known findings are classified here, in the worker, so that the cap on
+	// recorded violations can never hide a fresh one behind known ones.
+	for i, re := range r.knownRE {
+		if re != nil && re.MatchString(key) {
+			if r.res.KnownHits == nil {
+				r.res.KnownHits = map[int]int64{}
+			}
+			r.res.KnownHits[i]++
+			return
+		}
+	}
 	r.res.NViolations++
 	if len(r.res.Violations) >= r.maxViol {
 		return
